@@ -96,6 +96,22 @@ def c04(tier):
                       ASSUME_COMMON)
 
 
+@reg("C06")
+def c06(tier):
+    run = P.Run("C06", tier, ["C06_"])
+    s = run.seed
+    defs = F.curated_ctx() + F.curated() + F.random_family(2300 + s, sizes(tier, 120, 1200), nmax=sizes(tier, 4, 5), publish=True)
+    run.add_mc(F.curated_ctx() + F.random_family(3300 + s, sizes(tier, 30, 300), nmax=4, publish=True), ["C06"], replay=True)
+    run.add_jobs(jobs_for(defs, {"max_nodes": sizes(tier, 1500, 8000)}, s, ("yaql", "jinja"), tok="visit"))
+    run.add_jobs(jobs_for(F.curated_ctx(), {"lazy": True, "max_nodes": sizes(tier, 1500, 8000)}, s, tok="visit"))
+    return run.finish("model_checking",
+                      "definitions with arbitrary publish placement (unique and conflicting names, rolling publishes, "
+                      "splits, joins, loops) x all report orders; the binding monitor (value, publisher, lineage) of "
+                      "Props computes the expected context of every offered task, every decision, every published "
+                      "delta and the output",
+                      ASSUME_COMMON)
+
+
 @reg("C07")
 def c07(tier):
     run = P.Run("C07", tier, ["C07_"])
